@@ -239,11 +239,13 @@ pub fn apply_rewrite(b: &Building, r: &Rewrite) -> Building {
             }
             let frac = |c: i64, cut: u16| -> i64 { ((c.unsigned_abs() as u128 * cut as u128) >> 16) as i64 * c.signum() };
             // SALIDA may carry both signs, so its pieces only have to add up: with an odd cut2 the
-            // first piece overshoots and the second compensates with the opposite sign
+            // first piece overshoots and the second compensates with the opposite sign (the overshoot is at most the
+            // value itself: pieces hundreds of times larger than their sum would make the f32 sum of the service's
+            // output a cancellation residue, and the auxiliary split with it - rounding, not layout)
             let mixed = matches!(l.kind, Kind::Out { .. }) && (*cut2 & 1 == 1);
             // (zeros are left as zeros: pieces that cancel to zero would leave an f32 residue and a
             // step with zero output is where the auxiliary split is undefined, C06)
-            let a: Vec<i64> = cents.iter().map(|c| if mixed && *c != 0 { *c + frac(c.abs() + 1000, *cut1) * c.signum() } else { frac(*c, *cut1) }).collect();
+            let a: Vec<i64> = cents.iter().map(|c| if mixed && *c != 0 { *c + (frac(c.abs(), *cut1) + 1) * c.signum() } else { frac(*c, *cut1) }).collect();
             let rest: Vec<i64> = cents.iter().zip(a.iter()).map(|(c, a)| c - a).collect();
             let mut pieces = vec![a];
             if *parts == 3 {
